@@ -41,9 +41,14 @@ def check_c13(case, stats=None):
     epoch = [0]
     now_t = [0]
 
+    prio_of = {}
+    epoch_cfg = {}          # epoch -> (size, timeout) in force during it
+
     def arrive(tok, prio):
         nonlocal pending
         arrivals.append(tok)
+        prio_of[tok] = prio
+        epoch_cfg[epoch[0]] = (size, timeout)
         if timeout > 0:
             timed.append((tok, now_t[0], timeout, epoch[0]))
         if prio != "L" and size == 0 and timeout == 0 and not pending:
@@ -107,10 +112,10 @@ def check_c13(case, stats=None):
             elif c.op == "unsub" and ok and sl and sl[0] == target:
                 subs.pop(c.args[1], None)
             elif c.op == "bsize" and sl and sl[0] == target:
-                if not ok:
-                    bad("setter-failed", "m_mod_set_batch_size returned %d" % r.ret, r)
-                else:
+                if ok:
                     size = c.args[1]
+                elif r.ret != -11:     # (-EAGAIN: out of tokens; a refused setter has no effect)
+                    bad("setter-failed", "m_mod_set_batch_size returned %d" % r.ret, r)
             elif c.op == "btimeout" and sl and sl[0] == target:
                 if ok:
                     timeout = c.args[1]
@@ -184,6 +189,53 @@ def check_c13(case, stats=None):
                 continue
             if end - t_a > 3 * to_ns / 1000 + 20000 and tok not in nonflush0 and tok not in stopped0:
                 bad("timeout-did-not-flush", "event %s arrived while module %d had a batch timeout of %d ns; the loop then ran undisturbed for %d us but the handler was never invoked for it before the final flush" % ((tok,), target, to_ns, end - t_a))
+                break
+        # while only a batch timeout is in force (no size) the handler runs for normal/low events at most once per expiry of
+        # the (periodic) timer: more invocations without a high-priority event in them than timer periods fit into that
+        # stretch (+1) means events were handed over without waiting for the timeout
+        starts = {}
+        prev_end = 0
+        for ep in sorted(epoch_end):
+            starts[ep] = prev_end
+            prev_end = epoch_end[ep]
+        for ep, (sz, to_ns) in epoch_cfg.items():
+            if to_ns <= 0 or sz != 0 or ep not in epoch_end:
+                continue
+            t0, t1 = starts.get(ep, 0), epoch_end[ep]
+            n = 0
+            for b, br in observed:
+                if id(b) in flush_batches or not (t0 <= br.t <= t1):
+                    continue
+                toks = [t for t in b if t in prio_of]
+                if toks and all(prio_of[t] != "H" for t in toks):
+                    n += 1
+            # (a) deterministic: an expiry hands over everything accumulated in ONE invocation, and one poll batch carries at
+            # most one expiry of the module's timer: two such invocations with no driver step in between cannot both be due
+            # to the timer
+            run_n = 0
+            for rr in recs:
+                if rr.k == "B" and rr.kind == "evt" and rr.slot == 0:
+                    run_n = 0
+                elif rr.k == "B" and rr.kind == "evt" and rr.slot == target and t0 <= rr.t <= t1:
+                    bb = next((b for b, br in observed if br is rr), None)
+                    if bb is None or id(bb) in flush_batches:
+                        continue
+                    toks = [t for t in bb if t in prio_of]
+                    if toks and all(prio_of[t] != "H" for t in toks):
+                        run_n += 1
+                        if run_n >= 2:
+                            bad("timeout-not-awaited", "module %d: two handler invocations carrying no high-priority event within one poll batch while only a batch timeout of %d ns (no batch size) was in force: events are handed over without waiting for the timeout" % (target, to_ns), rr)
+                            break
+                    else:
+                        run_n = 0
+            if V and V[-1][0].endswith("timeout-not-awaited"):
+                break
+            # (b) by count
+            bound = (t1 - t0) * 1000.0 / to_ns + 1
+            if stats is not None and n:
+                stats["timeout_only_invocations_judged"] = stats.get("timeout_only_invocations_judged", 0) + n
+            if n > bound + 1e-9:
+                bad("timeout-not-awaited", "module %d: %d handler invocations carrying no high-priority event within %d us during which only a batch timeout of %d ns (no batch size) was in force: at most %.1f expiries fit" % (target, n, t1 - t0, to_ns, bound))
                 break
         # with neither a batch size nor a batch timeout in force a normal/high event is delivered at once: it must not
         # have waited for the final flush of the run
